@@ -49,6 +49,8 @@ PID = "C15"
 LEVEL = "model_checking"
 DJANGO = {}
 
+# no failing transition may be dropped: an open known finding must not be able to crowd out a new one
+FAIL_LIMIT = 1_000_000
 BUILTIN_NAMES = ["component", "component_css_dependencies", "component_js_dependencies", "fill", "html_attrs", "provide", "slot"]
 
 # ----------------------------------------------------------------------------- environment
@@ -414,7 +416,7 @@ def nontrivial_state(k) -> bool:
 def _bfs_task(cfg):
     _VALIDATED.clear()  # one configuration per task
     ops = ops_for(cfg)
-    r = seq.bfs(make_world(cfg), ops, step, canon, max_states=400000)
+    r = seq.bfs(make_world(cfg), ops, step, canon, max_states=400000, fail_limit=FAIL_LIMIT)
     del env().all_registries[env().base_len:]
     return {
         "cfg": cfg, "states": r.states, "transitions": r.transitions, "failures": r.failures, "fixpoint": r.fixpoint,
@@ -429,7 +431,7 @@ def _unmerged_task(arg):
     _VALIDATED.clear()
     ops = ops_for(cfg)
     n_seq, n_tr, failures, outcomes, canon_states = seq.all_sequences(
-        make_world(cfg), ops, step, depth, first_ops=[first], canon=canon
+        make_world(cfg), ops, step, depth, first_ops=[first], canon=canon, fail_limit=FAIL_LIMIT
     )
     del env().all_registries[env().base_len:]
     return cfg_name(cfg), n_seq, n_tr, failures, canon_states
@@ -494,7 +496,7 @@ def _template_task(arg):
                     failures.append((f"template-unused: after {hist_ops} no component uses tag {tag!r} but {src!r} gave {got} instead of 'Invalid block tag'", hist_ops))
     boot.clear_render_registries()
     del env().all_registries[env().base_len:]
-    return cfg_name(cfg), n, checked, nontriv, failures[:20], len(outs)
+    return cfg_name(cfg), n, checked, nontriv, failures, len(outs)
 
 
 # ----------------------------------------------------------------------------- driver
@@ -503,11 +505,24 @@ def _dispatch(task):
     return _bfs_task(arg) if kind == "bfs" else _unmerged_task(arg)
 
 
-def _identity(cfg, problem):
-    """Stable across tiers: topology / formatters / library set-up | violated clause."""
+def _identity(cfg, problem, hist=None):
+    """Stable across tiers: topology / formatters / library set-up | violated clause.
+
+    For `tag-missing` the identity also names the operation that made the tag disappear and whether
+    the component still using the tag lives in *another* registry than the one operated on - so the
+    known finding "unregister/clear on one registry removes a tag that another registry sharing the
+    library still uses" cannot mask a tag that goes missing for any other reason."""
     clause = problem.split(":")[0]
     if problem.startswith("ret:"):
         clause = ":".join(problem.split(":")[:2])
+    if clause == "tag-missing" and hist:
+        import re
+
+        last = hist[-1]
+        users = set(int(m) for m in re.findall(r"\((\d+), '", problem))
+        op_reg = last[1] if len(last) > 1 and isinstance(last[1], int) else None
+        where = "only-other-registries-use-it" if (op_reg is not None and users and op_reg not in users) else "own-registry-uses-it"
+        clause = f"tag-missing-after-{last[0]}:{where}"
     return f"{cfg_name(cfg).split('/n=')[0]}|{clause}"
 
 
@@ -560,7 +575,7 @@ def run(ctx):
         if not res["fixpoint"] and not res["failures"]:
             ev.caps_hit.append(f"bfs {nm} did not reach a fixpoint")
         for problem, hist in res["failures"]:
-            fnd.report(_identity(cfg, problem), f"[{nm}] after {hist}: {problem}", {"part": "seq", "cfg": cfg, "history": hist})
+            fnd.report(_identity(cfg, problem, hist), f"[{nm}] after {hist}: {problem}", {"part": "seq", "cfg": cfg, "history": hist})
 
     by_cfg = {}
     for nm, n_seq, n_tr, failures, canon_states in um:
@@ -569,7 +584,7 @@ def run(ctx):
         d["tr"] += n_tr
         d["canon"] |= canon_states
         for problem, hist in failures:
-            fnd.report(_identity(cfg_by_name[nm], problem), f"[{nm}] after {hist}: {problem}", {"part": "seq", "cfg": cfg_by_name[nm], "history": hist})
+            fnd.report(_identity(cfg_by_name[nm], problem, hist), f"[{nm}] after {hist}: {problem}", {"part": "seq", "cfg": cfg_by_name[nm], "history": hist})
     for nm, d in by_cfg.items():
         extra = d["canon"] - seen_by[nm]
         if extra and not fnd.violations and not fnd.known_hits:
